@@ -129,7 +129,39 @@ def oracle_roundtrip(acts):
         return "parse(format(actions)) differs: %r" % (back,)
     if len(text.splitlines()) != len(acts):
         return "%d lines for %d actions" % (len(text.splitlines()), len(acts))
+    # the same with ONE formatter / parser object that has been used before, also on scripts it rejected
+    sh = _shared()
+    try:
+        text2 = sh[0].format(acts, None)
+        back2 = list(sh[1].parse(text2))
+    except Exception as ex:  # noqa
+        return "a DiffFormatter / DiffParser object used before raised %r on a script new objects round-trip" % ex
+    if text2 != text or back2 != list(acts):
+        return "a DiffFormatter / DiffParser object used before gives %r / %r, new objects %r / the actions" % (text2, back2, text)
     return None
+
+
+_SHARED = []
+
+
+def _shared():
+    from xmldiff.formatting import DiffFormatter
+    from xmldiff.patch import DiffParser
+    if not _SHARED:
+        _SHARED.extend([DiffFormatter(), DiffParser()])
+    return _SHARED
+
+
+def poison(text):
+    """Feed the shared parser and the text-level entry point a script that must be rejected (cut off in the middle of
+    an action); whatever that leaves behind must not show in later calls."""
+    from xmldiff import main
+    cut = text[:max(1, len(text) * 2 // 3)].rstrip("]\n ")
+    for f in (lambda: list(_shared()[1].parse(cut)), lambda: main.patch_text(cut, "<a/>"), lambda: main.patch_text("[delete, /a/b[1]", "<a/>")):
+        try:
+            f()
+        except Exception:  # noqa
+            pass
 
 
 def oracle_pipeline(L, R):
@@ -138,6 +170,8 @@ def oracle_pipeline(L, R):
     l, r = etree.tostring(L).decode(), etree.tostring(R).decode()
     try:
         d = main.diff_texts(l, r, formatter=formatting.DiffFormatter(normalize=formatting.WS_NONE))
+        if d and len(d) % 3 == 0:
+            poison(d)
         out = main.patch_text(d, l)
         if gen.canon(etree.fromstring(out)) != gen.canon(etree.fromstring(r)):
             return "patch_text(diff_texts(l, r), l) != r", l, r
@@ -256,7 +290,10 @@ def main(run):
     # -- 3. the pipeline on documents -------------------------------------------
     npipe = 150 if quick else 2000
     for _ in range(npipe):
-        L, R = gen.gen_pair(rng, 7, ns=rng.random() < .4, words=gen.WORDS)
+        if rng.random() < .25:     # tag and attribute names that look like JSON literals / action keywords
+            L, R = gen.gen_pair(rng, 6, ns=False, words=gen.WORDS, tags=['null', 'true', 'NaN', 'a', 'insert'], attrs=['null', 'false', 'Infinity', 'i'])
+        else:
+            L, R = gen.gen_pair(rng, 7, ns=rng.random() < .4, words=gen.WORDS)
         w = oracle_pipeline(L, R)
         if w:
             viols.append({"what": w[0], "replay": {"kind": "pipeline", "left": w[1], "right": w[2]}})
@@ -304,6 +341,7 @@ def replay(run, path):
     if d.get("kind") == "roundtrip":
         from xmldiff import actions as A
         acts = [getattr(A, a[0])(*a[1:]) for a in d["actions"]]
+        poison('[update-text, /a/b[1], "some text"]\n[delete, /a[1]]')     # the shared objects have a history in the check, too
         why = oracle_roundtrip(acts)
         print(why or "property holds on this input")
         return 1 if why else 0
